@@ -250,6 +250,13 @@ Theorem every_write_site_denies_private : forall is_upper s h frame stack p v m 
 Proof. exact PkgRoutesProofs.every_write_site_denies_private. Qed.
 Print Assumptions every_write_site_denies_private.
 
+Theorem every_write_route_denies_private : forall is_upper h r p v m pk,
+  route_writes r = Some (p, v) -> names_ok p ->
+  spec_path is_upper h [] top p (Some v) = Denied m pk ->
+  route_run is_upper h r = Err (EPriv m pk) /\ route_spec is_upper h r = Denied m pk.
+Proof. exact PkgRoutesProofs.every_write_route_denies_private. Qed.
+Print Assumptions every_write_route_denies_private.
+
 (* a top-level call through a path = the specification of calls (any frame) *)
 Theorem call_path_is_spec_call : forall is_upper h frame p args,
   funs_ok is_upper h -> names_ok p ->
